@@ -49,6 +49,20 @@ def gen(tier, rng, shard, nshards):
             if all(p is not None for p in left + right):
                 node = {"k": "Product", "via": S.pick(rng, ["fn", "fn", "ctor"]),
                         "args": [{"k": "Kronecker", "via": "ctor", "args": left}, {"k": "Kronecker", "via": "ctor", "args": right}]}
+        if rng.random() < 0.05:
+            # directed: views (transpose / adjoint) of slices of *declared* Hermitian operands whose selectors pick one index set in
+            # two orders (not a principal sub-matrix), alone and as a factor next to the slice itself: S^T, S^H, S^T S, S S^H
+            from harness.monitors.c02 import annotated_base
+            for _ in range(20):
+                base = annotated_base(rng, S.pick(rng, ["f8", "c16", "f4", "c8"]))
+                if base["k"] == "Sliced":
+                    break
+            if base["k"] == "Sliced":
+                view = {"k": S.pick(rng, ["Transpose", "Adjoint"]), "via": S.pick(rng, ["fn", "ctor"]), "arg": base}
+                form = S.pick(rng, ["view", "view@S", "S@view", "view+view"])
+                node = {"view": view, "view@S": {"k": "Product", "via": S.pick(rng, ["fn", "ctor"]), "share": True, "args": [view, base]},
+                        "S@view": {"k": "Product", "via": S.pick(rng, ["fn", "ctor"]), "share": True, "args": [base, view]},
+                        "view+view": {"k": "Sum", "via": "ctor", "share": True, "args": [view, view]}}[form]
         if rng.random() < 0.04:
             # directed: results of routines on structured arguments (TriangularInv, factor-wise inverses, inverse of an inverse)
             node = W.gen_routine_directed(rng, S.pick(rng, S.ALL_DT))
